@@ -293,6 +293,7 @@ func (pkg *Package) schemaFromDesc(context fieldContext, schema *schema_j5pb.Fie
 			fieldContext: context,
 			OnlyDefined:  st.Any.OnlyDefined,
 			Types:        stringSliceConvert[string, protoreflect.FullName](st.Any.Types),
+			ListRules:    st.Any.ListRules,
 		}, nil
 
 	default:
@@ -363,6 +364,7 @@ func (pkg *Package) enumSchemaFromDesc(sch *schema_j5pb.Enum) *EnumSchema {
 			name:        src.Name,
 			description: src.Description,
 			number:      src.Number,
+			Info:        src.Info,
 		}
 	}
 	return &EnumSchema{
@@ -372,7 +374,8 @@ func (pkg *Package) enumSchemaFromDesc(sch *schema_j5pb.Enum) *EnumSchema {
 			name:        sch.Name,
 			pkg:         pkg,
 		},
-		Options: opts,
+		Options:    opts,
+		InfoFields: sch.Info,
 	}
 }
 
